@@ -367,8 +367,9 @@ func c05DocProp(k *verifkit.Kit) func(c c05Doc) error {
 }
 
 func c05GenDoc(t *rapid.T) c05Doc {
-	mins := []string{"", "auto", "3s", "3000ms", "5s", "10s", "47s", "0.75m", "450s", "7m30s", "1350s", "2.9s", "1351s"}
-	maxs := []string{"", "4s", "8.9s", "9s", "20s", "63s", "1m3s", "600s", "10m", "1800s", "30m", "3.9s", "1801s"}
+	// (the last few are not durations at all - a percentage, days: a pair is accepted only in a documented spelling)
+	mins := []string{"", "auto", "3s", "3000ms", "5s", "10s", "47s", "0.75m", "450s", "7m30s", "1350s", "2.9s", "1351s", "10%", "50%", "75%", "1%", "0.001d"}
+	maxs := []string{"", "4s", "8.9s", "9s", "20s", "63s", "1m3s", "600s", "10m", "1800s", "30m", "3.9s", "1801s", "0.5h", "0.02d", "100%"}
 	var c c05Doc
 	for i, n := 0, rapid.IntRange(1, 4).Draw(t, "nifaces"); i < n; i++ {
 		c.Pairs = append(c.Pairs, [2]string{rapid.SampledFrom(mins).Draw(t, "min"), rapid.SampledFrom(maxs).Draw(t, "max")})
